@@ -15,8 +15,8 @@ TRUSTED_BASE = [
 ASSUMPTIONS = ["stop()/wakeup() are issued after run()/block_on() has begun (C11's premise); one block_on future"]
 
 
-def case_text(name, mode, progs, sched):
-    out = ["case " + name, "mode " + mode, "threads %d" % len(progs)]
+def case_text(name, mode, progs, sched, selfwake=0):
+    out = ["case " + name, "mode " + mode] + (["selfwake %d" % selfwake] if selfwake else []) + ["threads %d" % len(progs)]
     for i, p in enumerate(progs):
         out.append("thread %d: %s" % (i + 1, p))
     out.append("sched " + " ".join(map(str, sched)))
@@ -28,9 +28,15 @@ WITNESSES = [
     case_text("wakeup_before_wait", "run", ["wakeup"], [0, 0, 1, 1, 0, 0, 0, 0, 0, 0]),
     case_text("stop_wakeup_while_waiting", "run", ["stop ; wakeup"], [0, 0, 0, 0, 1, 1, 1, 0, 0, 0, 0]),
     case_text("stop_between_check_and_wait", "run", ["stop ; wakeup"], [0, 0, 1, 1, 1, 0, 0, 0, 0, 0, 0]),
-    case_text("wake_between_swap_and_wait", "blockon", ["complete ; wake"], [0, 0, 0, 0, 1, 1, 0, 1, 0, 0, 0, 0, 0, 0]),
-    case_text("wake_store_then_wait_then_notify", "blockon", ["complete ; wake"], [0, 0, 0, 0, 1, 0, 1, 1, 0, 0, 0, 0, 0, 0]),
-    case_text("blockon_stop_first", "blockon", ["stop ; wakeup"], [0, 0, 0, 0, 0, 1, 1, 1, 0, 0, 0, 0]),
+    case_text("wake_between_poll_and_wait", "blockon", ["complete ; wake"], [0, 0, 0, 0, 0, 1, 1, 0, 1, 0, 0, 0, 0, 0, 0, 0]),
+    case_text("wake_store_then_wait_then_notify", "blockon", ["complete ; wake"], [0, 0, 0, 0, 0, 1, 0, 1, 1, 0, 0, 0, 0, 0, 0, 0]),
+    case_text("blockon_stop_first", "blockon", ["stop ; wakeup"], [0, 0, 0, 0, 0, 0, 1, 1, 1, 0, 0, 0, 0]),
+    # the wake lands while the future is being polled (the loop thread is parked inside poll): the poll returns
+    # Pending, and the future must be polled again
+    case_text("wake_during_poll", "blockon", ["wake"], [0, 0, 0, 0, 1, 1, 1, 0, 0, 0, 0, 0, 0, 0, 0, 0, 0, 0]),
+    case_text("wake_store_during_poll_notify_later", "blockon", ["wake"], [0, 0, 0, 0, 1, 1, 0, 0, 1, 0, 0, 0, 0, 0, 0, 0, 0, 0, 0, 0]),
+    # a future of the yield_now kind: it wakes itself inside poll and returns Pending
+    case_text("self_wake_twice", "blockon", ["complete"], [0] * 26 + [1] + [0] * 10, selfwake=2),
 ]
 
 
@@ -44,12 +50,13 @@ def random_case(rnd, idx):
         else:
             ops = [rnd.choice(["wake", "wake", "complete", "stop", "wakeup"]) for _ in range(rnd.randrange(1, 5))]
         progs.append(" ; ".join(ops))
-    total = 3 * sum(len(p.split(";")) for p in progs) + 12
+    selfwake = rnd.choice([0, 0, 0, 1, 2]) if mode == "blockon" else 0
+    total = 3 * sum(len(p.split(";")) for p in progs) + 12 + 9 * selfwake
     sched = []
     while len(sched) < total:
         sched += [rnd.randrange(0, n + 1)] * rnd.choice([1, 1, 2, 3])
-    sched += [0] * 8
-    return case_text("r%d" % idx, mode, progs, sched)
+    sched += [0] * 10
+    return case_text("r%d" % idx, mode, progs, sched, selfwake)
 
 
 def split_cases(lines):
@@ -84,6 +91,15 @@ def spec_c11(case, trace):
         if polls > last_polls:
             fready_stored = False
         last_polls = polls
+        if t == 0 and label != "skip":
+            # the future waking itself inside poll: the loop thread passes the waker's own yield points
+            prev0 = pending.pop(0, None)
+            if prev0 == "bo.wake.store":
+                fready_stored = True
+            elif prev0 == "bo.wake.notify":
+                notif = True
+            if label.startswith("bo.wake."):
+                pending[0] = label
         if t != 0:
             if label == "skip":
                 continue
@@ -108,6 +124,9 @@ def spec_c11(case, trace):
             if label == "blocked":
                 if notif:
                     return "a wake-up had been issued (and no wait had returned since) but the loop blocked in its wait"
+                if fready_stored and not any(v == "bo.wake.notify" for v in pending.values()):
+                    return ("the block_on waker was invoked (flag stored, notification sent) after the future's last poll began, and the "
+                            "loop has gone back to sleep without polling the future again: the wake was lost")
                 loop_blocked = True
             elif label != "skip":
                 if loop_blocked:
